@@ -776,6 +776,13 @@ def c13_programs(seed, tier):
     sweep("double_undeclared_max", rec("intensity", "double"), [v_f64(0.0), v_f64(1.7976931348623157e308)])
     sweep("double_limits_equal", rec("intensity", "double"), dl, limits={"min": v_f64(2.0), "max": v_f64(2.0)})
     sweep("double_limits_extreme", rec("intensity", "double", f64(0.0), f64(1.0)), dl, limits={"min": v_f64(-1.7976931348623157e308), "max": v_f64(1.7976931348623157e308)})
+    # limits at the edges of the float format: infinite, inverted (also by less than halving can tell), subnormal widths
+    sweep("double_limits_infinite", rec("intensity", "double"), dl, limits={"min": v_f64(float("-inf")), "max": v_f64(float("inf"))})
+    sweep("double_limits_half_infinite", rec("intensity", "double"), dl, limits={"min": v_f64(0.0), "max": v_f64(float("inf"))})
+    sweep("double_limits_inverted", rec("intensity", "double"), dl, limits={"min": v_f64(1.0), "max": v_f64(0.0)})
+    sweep("double_limits_inverted_subnormal", rec("intensity", "double"), dl, limits={"min": v_f64(5e-324), "max": v_f64(0.0)})
+    sweep("double_limits_subnormal_width", rec("intensity", "double"), [v_f64(0.0), v_f64(5e-324), v_f64(1e-323), v_f64(1.0)], limits={"min": v_f64(0.0), "max": v_f64(1e-323)})
+    sweep("double_limits_nan", rec("intensity", "double"), dl, limits={"min": v_f64(float("nan")), "max": v_f64(1.0)})
     # the three colour channels are independent: different declared ranges per channel, with default, reset and overridden limits
     def colour3(name, recs, values, limits="default"):
         proto = XYZ + [dict(r, name=n) for r, n in zip(recs, ("colorRed", "colorGreen", "colorBlue"))]
